@@ -60,12 +60,28 @@ func c04Ops(seed int64, phase, writers int, root string) []c04Op {
 		ops = append(ops, o)
 	}
 	pfx := fmt.Sprintf("k%d", phase)
+	libCreate := false
 	mkCreate := func(w int, id, parent, typ string) {
-		add(c04Op{Writer: w, Kind: "create", Node: id, Parent: parent, Points: data.Points{
+		pts := data.Points{
 			{Type: data.PointTypeTombstone, Time: ts(), Value: 0, Origin: "w"},
 			{Type: data.PointTypeNodeType, Text: typ},
 			{Type: "role", Time: ts(), Text: fmt.Sprintf("role-%v", val()), Origin: "w"},
-		}})
+		}
+		// (what a new edge needs is its node type; the other points are optional - except through the library,
+		// which adds a tombstone point of its own when none is given)
+		vary := r.Intn(8)
+		if libCreate {
+			vary = 7
+		}
+		switch vary {
+		case 0:
+			pts = pts[1:2]
+		case 1:
+			pts = pts[1:]
+		case 2:
+			pts = pts[:2]
+		}
+		add(c04Op{Writer: w, Kind: "create", Node: id, Parent: parent, Points: pts})
 	}
 	nodePts := func(n int) data.Points {
 		types := []string{"description", "value", "units", "a", "b", "c", "d"}
@@ -154,7 +170,9 @@ func c04Ops(seed int64, phase, writers int, root string) []c04Op {
 					pts = append(pts, p)
 				}
 				add(c04Op{Writer: w, Kind: "nodePoints", Node: id, Points: pts, Lib: true})
+				libCreate = true
 				mkCreate(w, id, parent, "variable")
+				libCreate = false
 				ops[len(ops)-1].Lib = true
 				continue // (no later operation builds on this node: the library gives up after a second, and then it may not exist)
 			}
